@@ -269,13 +269,13 @@ LOOP_STUBS = COMMON_STUBS + [
 PROPS["C13"] = {
     "jobs": [{"pkg": "provider/bidengine", "files": ["harness/C13/order.go"], "shims": ["shim.go.tmpl", "shim_loop.go.tmpl"],
               "quick": ["Harness_C13_fresh_7", "Harness_C13_overbid_7", "Harness_C13_existing_8"],
-              "thorough": ["Harness_C13_fresh_9", "Harness_C13_overbid_7", "Harness_C13_existing_10"],
+              "thorough": ["Harness_C13_fresh_9", "Harness_C13_overbid_7", "Harness_C13_existing_10", "Harness_C13_fresh_10_e3", "Harness_C13_existing_11_e3"],
               "opts": {"timeout": 20000, "witness": 4}, "reach": {"Harness_C13_fresh_7": ["returned"]}},
              {"pkg": "provider/bidengine", "files": ["harness/C13/order.go", "harness/C13/service.go"], "shims": ["shim.go.tmpl", "shim_loop.go.tmpl"],
               "quick": ["Harness_C13_service_3"], "thorough": ["Harness_C13_service_4"],
               "opts": {"timeout": 20000, "witness": 4}, "reach": {"Harness_C13_service_3": ["observed"], "Harness_C13_service_4": ["observed"]}}],
     "bounds": {"quick": "(*service).run: 0/1 catch-up order (with or without a bid from an earlier session), <=3 (thorough 4) events out of {order-created X, order-created Y, unrelated}, no monitor finishing inside the window; (*order).run with both values of checkForExistingBid; <=7 (existing-bid: 8) selects before shutdown is forced, then the post-loop clean-up and drain; <=2 chain events drawn from 6 kinds (lease won / lost / other group, order closed this / other, unrelated); every asynchronous step (group query, existing-bid query, reservation, pricing, bid broadcast, close-bid broadcast) completes ok or fails at any scheduler-chosen point, including after the loop has exited; bid timeout; shutdown at any point; strategy price below and above the order's maximum",
-               "thorough": "9 / 10 selects"},
+               "thorough": "9 / 10 selects; and 10 / 11 selects with <=3 chain events"},
     "stubs": LOOP_STUBS,
     "outside_claim": ["true multi-goroutine interleavings inside one component and data races", "shouldBid's auditor-signature path (no signature requirements in the harness order)", "service level: re-announcement of an order after its monitor has finished; service shutdown/drain; in the engine newOrder is a model of the monitor's first visible effects (natively the real monitors run)"],
     "assumptions": ["an asynchronous step's effects happen atomically at its completion point"],
@@ -309,17 +309,17 @@ PROPS["C20"] = {
     "assumptions": ["a second send on a full capacity-1 reply channel blocks the manager forever (counted as a hang)"],
 }
 
-C11_Q = ["Harness_C11_namespace", "Harness_C11_container", "Harness_C11_netpol", "Harness_C11_netpol_2", "Harness_C11_netpol_applied", "Harness_C11_netpol_off", "Harness_C11_objects"]
+C11_Q = ["Harness_C11_deploy", "Harness_C11_namespace", "Harness_C11_container", "Harness_C11_netpol", "Harness_C11_netpol_2", "Harness_C11_netpol_applied", "Harness_C11_netpol_off", "Harness_C11_objects"]
 PROPS["C11"] = {
-    "jobs": [{"pkg": "provider/cluster/kube", "files": ["harness/C11/builders.go", "harness/C11/clientset.go"], "quick": C11_Q, "thorough": C11_Q,
+    "jobs": [{"pkg": "provider/cluster/kube", "files": ["harness/C11/builders.go", "harness/C11/clientset.go", "harness/C11/deploy.go"], "quick": C11_Q, "thorough": C11_Q,
               "opts": {"timeout": 30000, "witness": 4},
-              "reach": {"Harness_C11_namespace": ["namespace"], "Harness_C11_container": ["container"], "Harness_C11_netpol": ["netpol"], "Harness_C11_netpol_applied": ["applied-twice", "netpol"]}},
+              "reach": {"Harness_C11_namespace": ["namespace"], "Harness_C11_container": ["container"], "Harness_C11_netpol": ["netpol"], "Harness_C11_netpol_applied": ["applied-twice", "netpol"], "Harness_C11_deploy": ["deployed"]}},
              {"pkg": "provider/cluster/kube", "files": ["harness/C11/builders.go", "harness/C11/clientset.go"], "quick": ["Harness_C11_commit"], "thorough": ["Harness_C11_commit"],
               "opts": {"timeout": 60000, "witness": 2, "inctimeout": 0}, "reach": {"Harness_C11_commit": ["commit"]}}],
-    "bounds": {"quick": "lidNS on an arbitrary 28-byte digest (arbitrary owner address; SHA-224 uninterpreted); deploymentBuilder.create/update/container with symbolic cpu/memory/storage in [1,2^44] (bit-vectors) at commit levels 0/0.5/1, 3 runtime classes; the float64 commit-level kernel ComputeCommittedResources for every value in [1,2^44] at the factors {0,0.5,1,1.5,2,3,10,1024} (a fully symbolic factor times out on all three solvers); netPolBuilder.create with one and with two services, one symbolic expose each, the attacked pod belonging to either service, evaluated by a policy evaluator in the harness for an arbitrary peer (same namespace / ingress namespace / ingress pod flags), destination port and protocol, and an arbitrary IPv4 egress address (bit-vector) and port; nsBuilder and serviceBuilder objects",
+    "bounds": {"quick": "lidNS on an arbitrary 28-byte digest (arbitrary owner address; SHA-224 uninterpreted); deploymentBuilder.create/update/container with symbolic cpu/memory/storage in [1,2^44] (bit-vectors) at commit levels 0/0.5/1, 3 runtime classes; the float64 commit-level kernel ComputeCommittedResources for every value in [1,2^44] at the factors {0,0.5,1,1.5,2,3,10,1024} (a fully symbolic factor times out on all three solvers); netPolBuilder.create with one and with two services, one symbolic expose each, the attacked pod belonging to either service, evaluated by a policy evaluator in the harness for an arbitrary peer (same namespace / ingress namespace / ingress pod flags), destination port and protocol, and an arbitrary IPv4 egress address (bit-vector) and port; nsBuilder and serviceBuilder objects; the whole (*client).Deploy (first deploy and redeploy, network policies on/off) and TeardownLease for one service with an ingress, a node-port and an internal expose against typed fakes of both clientsets",
                "thorough": "same harnesses with a 240 s solver budget"},
     "stubs": COMMON_STUBS + ["sha256.Sum224 -> native on concrete input, fresh symbolic digest on symbolic input", "strings.ToLower -> per-byte ite", "math.Round -> fp.roundToIntegral RNA", "resource.Quantity -> opaque integer amount with scale (NewQuantity/NewScaledQuantity/DeepCopy/Value/MilliValue)"],
-    "outside_claim": ["distinct leases => distinct namespaces rests on SHA-224 collision resistance (assumed)", "the namespace ARGUMENT passed to the Kubernetes client in client.go/apply.go/cleanup.go (needs a clientset model; not built)", "ingress objects", "what the API server / CNI enforce", "commit factors other than the 8 listed; values above 2^44"],
+    "outside_claim": ["distinct leases => distinct namespaces rests on SHA-224 collision resistance (assumed)", "label selectors of cleanupStaleResources (the fakes ignore them)", "the content of ingress objects", "what the API server / CNI enforce", "commit factors other than the 8 listed; values above 2^44"],
     "assumptions": ["NetworkPolicy semantics as documented by Kubernetes: a pod selected by any policy of a type is isolated for that type and admits the union of all rules", "the lease namespace is not the ingress controller's namespace"],
 }
 
@@ -342,15 +342,15 @@ PROPS["C09"] = {
     "assumptions": ["tls.Config.VerifyPeerCertificate is the only admission decision (InsecureSkipVerify is set by the code)"],
 }
 
-C15_Q = ["Harness_C15_root_0", "Harness_C15_root_2", "Harness_C15_sub_0_2", "Harness_C15_sub_1_0", "Harness_C15_sub_1_1", "Harness_C15_sub_2_0", "Harness_C15_sub_2_2", "Harness_C15_root_2d", "Harness_C15_sub_1_2d"]
+C15_Q = ["Harness_C15_root_0", "Harness_C15_root_2", "Harness_C15_sub_0_2", "Harness_C15_sub_1_0", "Harness_C15_sub_1_1", "Harness_C15_sub_2_0", "Harness_C15_sub_2_2", "Harness_C15_root_2d", "Harness_C15_sub_1_2d", "Harness_C15_sequence_0_4", "Harness_C15_sequence_1_5"]
 PROPS["C15"] = {
     "jobs": [{"pkg": "pubsub", "files": ["harness/C15/bus.go"], "shims": ["shim.go.tmpl", "shim_loop.go.tmpl"],
-              "quick": C15_Q, "thorough": C15_Q + ["Harness_C15_sub_3_1", "Harness_C15_root_3d"], "opts": {"timeout": 20000, "witness": 4},
+              "quick": C15_Q, "thorough": C15_Q + ["Harness_C15_sub_3_1", "Harness_C15_root_3d", "Harness_C15_sequence_2_6"], "opts": {"timeout": 20000, "witness": 4},
               "reach": {"Harness_C15_sub_2_2": ["stepped"]}},
              {"pkg": "events", "files": ["harness/C15/feeder.go"], "shims": ["shim.go.tmpl", "shim_loop.go.tmpl"],
               "quick": ["Harness_C15_feeder"], "thorough": ["Harness_C15_feeder"], "opts": {"timeout": 20000, "witness": 2},
               "reach": {"Harness_C15_feeder": ["fed"]}}],
-    "bounds": {"quick": "single-step lemmas on the real (*bus).run body and newSubscriber: bus in root or subscriber mode with 0/1/2 buffered events and 0/1/2 children; one of publish / emit / subscribe(clone) / unsubscribe, then shutdown with its post-loop collection of children; variants in which one of 2 children has already begun shutting down (it no longer reads; every map iteration order); feeder: the real events.publishEvents loop fed 3 transaction results back to back (the second failed or not), any goroutine it starts completing in any order",
+    "bounds": {"quick": "single-step lemmas on the real (*bus).run body and newSubscriber: bus in root or subscriber mode with 0/1/2 buffered events and 0/1/2 children; one of publish / emit / subscribe(clone) / unsubscribe, then shutdown with its post-loop collection of children; variants in which one of 2 children has already begun shutting down (it no longer reads; every map iteration order); bounded sequences on one subscriber loop (<=3 publications and any number of consumer reads within 4-5 loop steps, thorough 6): delivered ++ buffer = initial buffer ++ published, in order; feeder: the real events.publishEvents loop fed 3 transaction results back to back (the second failed or not), any goroutine it starts completing in any order",
                "thorough": "adds 3 buffered events x 1 child, and 3 children one of them closing"},
     "stubs": LOOP_STUBS + ["child buses -> environment sinks/sources (their own loops are not run in the engine; natively live reader goroutines stand in for them)"],
     "outside_claim": ["the end-to-end statement over all interleavings of concurrent goroutines: it follows from the step lemmas only through a hand-written compositional argument (per-subscriber FIFO invariant) that is not solver-checked", "data races"],
